@@ -8,6 +8,136 @@ THEOREMS = ["C08_literal_set_dispatch_invisible", "C08_discriminator_dispatch_in
             "C08_property_order_invisible_to_hash256", "C08_comments_invisible_to_hash256",
             "C08_property_order_invisible_to_hash", "C08_nonvacuous"]
 
+# ---------------------------------------------------------------- generic declarations against their instantiation by hand
+PRIMS = ["string", "number", "boolean", "null"]
+
+
+def show_ty(t):
+    k = t[0]
+    if k == "prim": return t[1]
+    if k == "lit": return t[1]
+    if k in ("param", "ref"): return t[1]
+    if k == "arr": return "Array<%s>" % show_ty(t[1])
+    if k == "tuple": return "[%s]" % ", ".join(show_ty(x) for x in t[1])
+    if k == "union": return "(%s)" % " | ".join(show_ty(x) for x in t[1])
+    if k == "obj": return "{ %s }" % "; ".join("%s%s: %s" % (n, "?" if o else "", show_ty(x)) for n, o, x in t[1])
+    if k == "app": return "%s<%s>" % (t[1], ", ".join(show_ty(x) for x in t[2]))
+    raise ValueError(t)
+
+
+def inst(t, env, decls, aliases, depth=0):
+    """substitute by hand: parameters by their arguments, applications and references by their bodies"""
+    if depth > 12: raise RecursionError
+    k = t[0]
+    if k in ("prim", "lit"): return t
+    if k == "param": return env[t[1]]
+    if k == "ref": return inst(aliases[t[1]], {}, decls, aliases, depth + 1)
+    if k == "arr": return ("arr", inst(t[1], env, decls, aliases, depth))
+    if k == "tuple": return ("tuple", [inst(x, env, decls, aliases, depth) for x in t[1]])
+    if k == "union": return ("union", [inst(x, env, decls, aliases, depth) for x in t[1]])
+    if k == "obj": return ("obj", [(n, o, inst(x, env, decls, aliases, depth)) for n, o, x in t[1]])
+    if k == "app":
+        params, kind, body = decls[t[1]]
+        args = [inst(x, env, decls, aliases, depth) for x in t[2]]
+        return inst(body, dict(zip(params, args)), decls, aliases, depth + 1)
+    raise ValueError(t)
+
+
+def generic_pair(r):
+    """a program with generic aliases / interfaces whose parameter names collide with each other and with a global alias,
+    and the same type written out by hand without any declaration"""
+    aliases, decls, order = {}, {}, []
+    pnames = ["T", "U", "K"]
+    global_t = r.random() < 0.5
+    if global_t:
+        aliases["T"] = ("prim", r.choice(["number", "boolean"]))          # a global alias named like a type parameter
+        aliases["Inner"] = ("obj", [("v", False, ("ref", "T"))])
+    def closed(d):
+        q = r.random()
+        if d <= 0 or q < 0.45: return ("prim", r.choice(PRIMS)) if r.random() < 0.8 else ("lit", r.choice(['"a"', '"b"', "1"]))
+        if q < 0.65: return ("arr", closed(d - 1))
+        if q < 0.8: return ("obj", [(n, r.random() < 0.3, closed(d - 1)) for n in r.sample(["a", "b", "c"], r.randrange(1, 3))])
+        if q < 0.9: return ("union", [closed(d - 1), ("prim", "null")])
+        return ("tuple", [closed(d - 1) for _ in range(r.randrange(1, 3))])
+    def leaf(params):
+        q = r.random()
+        if q < 0.6: return ("param", r.choice(params))
+        if q < 0.75 and global_t: return ("ref", "Inner")
+        if q < 0.85 and global_t and "T" not in params: return ("ref", "T")
+        return closed(0)
+    def body(params, d, must_obj=False):
+        q = r.random()
+        if must_obj or (d > 0 and q < 0.3):
+            return ("obj", [(n, r.random() < 0.25, body(params, d - 1)) for n in r.sample(["a", "b", "c", "v", "w"], r.randrange(1, 4))])
+        if d <= 0: return leaf(params)
+        if q < 0.65 and order:
+            g = r.choice(order)
+            # the argument is built from this declaration's parameters: not the bare parameter in most cases
+            return ("app", g, [r.choice([("arr", ("param", r.choice(params))), ("param", r.choice(params)),
+                                         ("obj", [("k", False, ("param", r.choice(params)))]), closed(1)]) for _ in decls[g][0]])
+        if q < 0.75: return ("arr", body(params, d - 1))
+        if q < 0.85: return ("union", [body(params, d - 1), ("prim", "null")])
+        return leaf(params)
+    for i in range(r.randrange(2, 4)):
+        params = r.sample(pnames, r.choice([1, 1, 2]))
+        kind = r.choice(["type", "type", "interface"])
+        b = body(params, 2, must_obj=(kind == "interface"))
+        decls["G%d" % i] = (params, kind, b); order.append("G%d" % i)
+    top = order[-1]
+    main = ("app", top, [closed(1) for _ in decls[top][0]])
+    lines = []
+    for n, b in aliases.items(): lines.append("export type %s = %s;" % (n, show_ty(b)))
+    for n in order:
+        params, kind, b = decls[n]
+        if kind == "interface":
+            lines.append("export interface %s<%s> { %s }" % (n, ", ".join(params), "; ".join("%s%s: %s" % (k, "?" if o else "", show_ty(x)) for k, o, x in b[1])))
+        else:
+            lines.append("export type %s<%s> = %s;" % (n, ", ".join(params), show_ty(b)))
+    lines.append("export type Main = %s;" % show_ty(main))
+    p1 = "\n".join(lines) + "\nparse.buildParsers<{ Main: Main }>();"
+    p2 = "export type Main = %s;\nparse.buildParsers<{ Main: Main }>();" % show_ty(inst(main, {}, decls, aliases))
+    return p1, p2
+
+
+def generic_stream(run, n, fails, cov):
+    r = random.Random(run.seed + 808)
+    pairs = []
+    while len(pairs) < n:
+        try: pairs.append(generic_pair(r))
+        except RecursionError: pass
+    res = cstage.compile_projects([[("entry.ts", a)] for a, _ in pairs] + [[("entry.ts", b)] for _, b in pairs])
+    dumps = cstage.dump_modules(res[n:])
+    items, meta = [], []
+    for i, (a, b) in enumerate(pairs):
+        ra, rb = res[i], res[n + i]
+        if ra.get("outcome") != "code" or rb.get("outcome") != "code":
+            if ra.get("outcome") != rb.get("outcome"):
+                fails.append(("compilation-outcome-differs", {"program": a, "rewritten": b, "rewrites": ["generic declarations instantiated by hand"],
+                                                               "original": ra.get("outcome"), "rewritten_outcome": rb.get("outcome"),
+                                                               "diags": (ra.get("diags") or rb.get("diags") or [None])[:2]}))
+            continue
+        if dumps[i] is None or "error" in dumps[i]: continue
+        pv = cstage.values_for_parsers(dumps[i], run.seed + 8000 + i, 14)
+        items.append((ra["code"], pv, [])); items.append((rb["code"], pv, [])); meta.append(i)
+    ev = cstage.eval_modules(items)
+    judged = 0
+    for k, i in enumerate(meta):
+        ea, eb = ev[2 * k], ev[2 * k + 1]
+        a, b = pairs[i]
+        if "error" in ea or "error" in eb:
+            fails.append(("module-does-not-load", {"program": a, "rewritten": b, "original": ea.get("error"), "rewritten_error": eb.get("error")}))
+            continue
+        judged += 1
+        va, vb = ea["Main"]["validate"], eb["Main"]["validate"]
+        if va != vb:
+            vals = items[2 * k][1]["Main"]
+            j = next(x for x in range(len(va)) if va[x] != vb[x])
+            fails.append(("validate-differs", {"program": a, "rewritten": b, "rewrites": ["generic declarations instantiated by hand"],
+                                               "parser": "Main", "value": val_canon(vals[j]), "original": va[j], "rewritten": vb[j]}))
+    cov["spec_checks"]["generic aliases / interfaces (colliding parameter names, a global alias named like a parameter) vs the same type written out by hand"] = {
+        "pairs": n, "both compile and were compared on values": judged}
+    cov["samples"].append({"generic_program": pairs[0][0], "by_hand": pairs[0][1]})
+
 
 def check(run):
     ok = run.prove("Props.C08", THEOREMS, ["Props/C08.vo"])
@@ -89,6 +219,7 @@ def check(run):
     cov["spec_checks"]["validate and hash256 equal before/after rewriting"] = {
         "parsers_judged": judged, "failures": dict(collections.Counter(k for k, _ in fails)), "failures inside listed classes": dict(in_known)}
     cov["samples"] = [{"program": projects[0][0][1], "rewritten": projects[n][0][1], "rewrites": variants[0][2]}]
+    generic_stream(run, 60 if quick else 2500, fails, cov)
     cov["trusted_base"] = [
         "Coq 8.16.1 kernel; no axioms (dispatch and hash-order theorems are about the runtime trees)",
         "the compiler frontend and printer are not modelled: their output is observed through H-compile + Node (modrun.mjs)",
